@@ -56,8 +56,8 @@ def freshResultQ (q : Ref → QKind → List Ref) (fdpt : Nat → List Nat)
        | "allMessages" => sortRefs (allMsgRefs r.file r.path 3 0 nested)
        | "allEnums" => sortRefs (childRefs r.file r.path 4 h.enums.length ++ allEnumRefs r.file r.path 3 0 nested)
        | "nonOneof" => (idx h.fields).filterMap fun (i, fd) => if fd.oneofIndex.isNone then some ⟨r.file, r.path ++ [2, i]⟩ else none
-       | "oneofFields" => ((List.range h.oneofs.length).map members).flatten
-       | "synthFields" => (((List.range h.oneofs.length).filter (pgsSynthetic f h)).map members).flatten
+       | "oneofFields" => sortRefs ((List.range h.oneofs.length).map members).flatten      -- derived relations: as sets
+       | "synthFields" => sortRefs (((List.range h.oneofs.length).filter (pgsSynthetic f h)).map members).flatten
        | "realOneofs" => ((List.range h.oneofs.length).filter (fun o => !pgsSynthetic f h o)).map fun o => ⟨r.file, r.path ++ [8, o]⟩
        | "imports" => fileRefs (sortNat ((msgFieldRefs r h).map (fieldImports g)).flatten)
        | "deps" => sortRefs (q r .dependencies)
